@@ -291,9 +291,14 @@ func checkC14(c *Ctx) {
 		if add == nil {
 			r.Unk("C14.5", "selectAddrFromSubnetOffset: base+offset", f.Pos(), fnName(f), "big.Int Add not found")
 		} else {
+			// the subnet size is the big.Int that receives Exp(2, addrLen-bits); the offset is the second parameter
+			size, off := "?", P(f, 1)
+			for _, ci := range callsIn(f, nameIs("(*math/big.Int).Exp")) {
+				size = pathOf(ci.Common().Args[0])
+			}
 			g := guardedM(f, add, func(cnd string, pol bool) bool {
-				// netSize.Cmp(offset) <= 0 -> return ; i.e. (0 < netSize.Cmp(offset)) true, or (offset.Cmp(netSize) < 0) true
-				return pol && (cnd == "(0 < netSize.Cmp(offset))" || cnd == "(offset.Cmp(netSize) < 0)")
+				// size.Cmp(offset) <= 0 -> return ; i.e. (0 < size.Cmp(offset)) true, or (offset.Cmp(size) < 0) true
+				return pol && (cnd == "(0 < "+size+".Cmp("+off+"))" || cnd == "("+off+".Cmp("+size+") < 0)")
 			})
 			r.Check(g, "C14.5", "selectAddrFromSubnetOffset: address computed only when offset < netSize", add.Pos(), fnName(f), "dominated by netSize.Cmp(offset) > 0",
 				"the address base+offset is computed without checking offset < size of the subnet: the result can lie outside the configured subnet")
